@@ -105,6 +105,12 @@ bool BaseTagHDF5::removeReference(const std::string &name_or_id) {
 
 
 void BaseTagHDF5::references(const std::vector<DataArray> &refs_new) {
+    // look at all new references first: an invalid one must not cost the old ones
+    for (const auto &ref : refs_new) {
+        if (!block()->hasEntity({ref.id(), ObjectType::DataArray})) {
+            throw std::runtime_error("BaseTagHDF5::references: DataArray not found in block!");
+        }
+    }
     while (referenceCount() > 0) {
         removeReference(getReference(0)->id());
     }
